@@ -8,7 +8,7 @@ import bec2format.bec2file as bec2
 from bec2format.bec2file import (AesEncryptorMixin, SoftwareCustKeyEncryptor, ConfigSecurityCodeEncryptor,
                                  EccEncryptor, EccDecryptor, InitCustKeyAuthBlock, InitEccAuthBlock,
                                  UpdateAuthBlock, UnknownAuthBlock, Bec2File, BEC2_FILE_SIG)
-from bec2format.bf3file import Bf3File
+from bec2format.bf3file import Bf3File, Bf3Component
 from register_crypto_plugin.ecdsa import NIST256p, SigningKey
 
 
@@ -441,6 +441,12 @@ def prop_c04bec2(k, bs, cs, es, ephs, what, stride, offset):
                 # dictionary of blocks keeps the position of the first block with that tag, so the opened blocks come back
                 # in another order
                 return (f"KNOWN:HEADER-REORDER opened auth blocks {kf} are the original ones {blocks0} in another order "
+                        f"(session key and components unchanged)")
+            rest = list(blocks0)
+            if all((x in rest) and (rest.remove(x) is None) for x in kf):
+                # both at once: the tag of an opened block was replaced by the tag of ANOTHER opened kind of the same file - the
+                # block becomes opaque (downgrade) and takes the dictionary position of that kind (reorder)
+                return (f"KNOWN:HEADER-REORDER opened auth blocks {kf} are part of the original ones {blocks0} in another order "
                         f"(session key and components unchanged)")
             return f"decrypted auth blocks {kf} instead of {blocks0}"
         return None
@@ -999,6 +1005,49 @@ def prop_c09(sel, d, eph, k, explicit):
     blk, sk = InitEccAuthBlock.unpack(raw, [EccDecryptor(sel, priv_key(d))])
     if sk != key or blk.key_selector != sel:
         return "FAIL the library's decryptor does not recover the session key"
+    return "ok"
+
+
+@op("prop.c07realrand")
+def prop_c07realrand(sel, d, nfiles):
+    """no oracle: the registered key generator and random source themselves.  Every file written without a session key gets
+    its own 16-byte key, every ECC block its own ephemeral P-256 key pair, and the recipient - whose private key is loaded
+    from its DER form, as the application notes do - recovers the key with an ECIES written with the independent arithmetic"""
+    import refec
+    sel, d, nfiles = int(sel), int(d), int(nfiles)
+    P = refec.P256
+    recipient_priv = plugin.PrivateEccKeyProxy.create_from_der_fmt(_sec1_der(d))
+    if recipient_priv is None:
+        return "FAIL PrivateEccKey.create_from_der_fmt returns no key object"
+    q = refec.mul(P, d, (P["gx"], P["gy"]))
+    if recipient_priv.public_key.to_raw_bin_fmt() != q[0].to_bytes(32, "big") + q[1].to_bytes(32, "big"):
+        return "FAIL the private key loaded from DER has another public key than d*G"
+    keys, ephs = [], []
+    for i in range(nfiles):
+        f = Bec2File(mkfile({}, [Bf3Component({0xC3: b"\x02"}, bytes([i]) * 20)]), [InitEccAuthBlock(sel)])
+        if not isinstance(f.session_key, bytes) or len(f.session_key) != 16:
+            return f"FAIL a file built without session key has the key {f.session_key!r}"
+        keys.append(f.session_key)
+        for w in range(2):
+            hdr = f.pack_auth_blocks([EccEncryptor(sel, recipient_priv.public_key)])
+            raw = hdr[2:2 + hdr[1]]
+            if raw[0] != sel or raw[1] != 4 or len(raw) != 82:
+                return "FAIL malformed ECC block"
+            E = (int.from_bytes(raw[2:34], "big"), int.from_bytes(raw[34:66], "big"))
+            if not refec.on_curve(P, E):
+                return "FAIL the ephemeral public key of an ECC block is not a point of P-256"
+            ephs.append(E)
+            shared = refec.mul(P, d, E)[0].to_bytes(32, "big")
+            got = refaes.cbc_decrypt(sha256(shared).digest()[:16], bytes(16), raw[66:])
+            if got != f.session_key:
+                return "FAIL the recipient does not recover the session key from a block made with a generated ephemeral key"
+            back, sk = InitEccAuthBlock.unpack(raw, [EccDecryptor(sel, recipient_priv)])
+            if sk != f.session_key:
+                return "FAIL EccDecryptor with the DER-loaded private key does not recover the session key"
+    if len(set(keys)) != len(keys):
+        return "FAIL two files drew the same session key"
+    if len(set(ephs)) != len(ephs):
+        return "FAIL two ECC blocks used the same ephemeral key"
     return "ok"
 
 
